@@ -114,6 +114,7 @@ func main() {
 		}
 		seed, _ := strconv.ParseUint(os.Args[4], 10, 64)
 		jobs := m.Plan(os.Args[3], seed)
+		jobs = append(jobs, arch386Jobs(os.Args[1], jobs)...)
 		for i := range jobs {
 			if jobs[i].Args == nil {
 				jobs[i].Args = map[string]interface{}{}
@@ -182,4 +183,45 @@ func main() {
 	default:
 		usage()
 	}
+}
+
+// arch386Jobs: a subset of a property's jobs is run a second time with the monitor built for GOARCH=386,
+// where int is 32 bits wide (as it is under GopherJS, which the qrllib-js wrappers are generated with).
+// The results must be the same: nothing in the library may depend on the platform's integer width.
+func arch386Jobs(id string, jobs []rt.Job) (out []rt.Job) {
+	perKind := map[string]int{}
+	limit := map[string]int{"C12": 99, "C13": 99, "C11": 99, "C10": 4, "C07": 2, "C03": 3, "C05": 2, "C01": 3, "C06": 2, "C04": 2, "C14": 1, "C16": 2, "C09": 1, "C02": 3, "C08": 2}[id]
+	if limit == 0 {
+		return nil
+	}
+	for _, j := range jobs {
+		if j.Race || j.Args["gomaxprocs"] != nil {
+			continue
+		}
+		if h, ok := j.Args["h"]; ok { // XMSS jobs: small real trees only
+			if hi, _ := h.(int); hi > 4 {
+				continue
+			}
+			if seam, _ := j.Args["seam"].(bool); seam {
+				continue
+			}
+		}
+		if j.Kind == "block24" || j.Kind == "r1search" {
+			continue
+		}
+		if perKind[j.Kind] >= limit {
+			continue
+		}
+		perKind[j.Kind]++
+		c := j
+		c.ID = j.ID + "/386"
+		c.Args = map[string]interface{}{}
+		for k, v := range j.Args {
+			c.Args[k] = v
+		}
+		c.Args["arch"] = "386"
+		c.Cost = j.Cost * 2
+		out = append(out, c)
+	}
+	return
 }
